@@ -224,6 +224,19 @@ claim(
     "DESIGN.md section 4, C19",
 )
 
+claim(
+    "C07",
+    "clang JSON AST of the codec under the shipped build flags (-DNDEBUG): inter-procedural must-pass-through of the range guard before table-index "
+    "sinks; encoder/decoder bit-field table agreement; loop-exit => length postcondition; allocation-size obligations; axis roles for the kernel decomposition",
+    "Decides clauses a-f of DESIGN.md 4/C07 on the program that ships: every path from the exported encode entries to a `x[value + 256]` table index "
+    "passes a rejecting -255..255 check (F2 found and fixed); encoder and decoder agree on the 14 field names, widths, header order and inverse biases and "
+    "DIROFS cannot overflow its 5 bits; the returned length is the bit cursor / 8 after padding to 128 bits; the zero-run buffer holds size + 1 entries "
+    "(F3 found and fixed), the reorder buffer grows before it overflows, allocations are tested; sub-kernel decomposition uses the dilation of its own "
+    "axis. Does NOT decide round-trip equality, traversal order, output-buffer sufficiency or general UB.",
+    "Trusted: clang's parse; CPython CFLAGS contain -DNDEBUG unless setup.py undefines it; recognised source idioms of mlw_encode.c (macro arguments are matched on source text).",
+    "DESIGN.md section 4, C07",
+)
+
 
 def build():
     checks = []
